@@ -100,8 +100,20 @@ fn corruptions(h: &TInstance, rng: &mut Rng, limit: usize) -> Vec<(String, TInst
             }
         }
     }
-    // wrong number of cells
+    if out.len() > limit {
+        rng.shuffle(&mut out);
+        out.truncate(limit);
+    }
+    // wrong number of cells (always kept)
     {
+        let mut c = h.clone();
+        c.values.clear();
+        out.push(("all cells removed".to_string(), c));
+        if nq >= 2 {
+            let mut c = h.clone();
+            c.values.truncate(nc);
+            out.push(("cells of all rows but the first removed".to_string(), c));
+        }
         let mut c = h.clone();
         c.values.pop();
         out.push(("one cell removed (last)".to_string(), c));
@@ -121,10 +133,6 @@ fn corruptions(h: &TInstance, rng: &mut Rng, limit: usize) -> Vec<(String, TInst
         let mut c = h.clone();
         c.n_columns = ncol;
         out.push((lbl.to_string(), c));
-    }
-    if out.len() > limit {
-        rng.shuffle(&mut out);
-        out.truncate(limit);
     }
     out
 }
@@ -225,14 +233,20 @@ pub fn run(args: &Args) -> Report {
         let sparse = (i / col_choices.len() as u64) % 3 == 2;
         let hmax_full = if ncol > 16 { 6 } else { 10 };
         let h: u32 = if sparse { rng.range(8, 48) as u32 } else { rng.range(0, hmax_full) as u32 };
-        let nf: u64 = match rng.below(6) {
+        let nf: u64 = match rng.below(8) {
             0 => 0,
             1 => h as u64 + 1,
             2 => h as u64,
             3 => h as u64 + 2,
             4 => 1000,
+            // counts that do not fit 32 bits / are the largest 64-bit value: every layer is friendly
+            5 => *rng.pick(&[1u64 << 32, (1u64 << 32) + 1, 1u64 << 40, 1u64 << 63]),
+            6 => u64::MAX,
             _ => rng.range(0, h as u64 + 2),
         };
+        if nf >= 1 << 32 {
+            rep.inc("n_friendly_above_2^32");
+        }
         let p = TreeParams { height: h, n_friendly: nf, hash };
         let nrows: u128 = 1u128 << h;
         let kmax = if nrows < 24 { nrows as u64 } else { 24 };
